@@ -19,12 +19,20 @@ import numba as nb
 
 @nb.njit(cache=True)
 def arr_comb(n, k):
-    n = np.where((n < 0) | (n < k), 0, n)
+    invalid = (n < 0) | (n < k)
+    n = np.where(invalid, 0, n)
     prod = np.ones(n.shape, dtype=np.int64)
 
+    # NOTE: The symmetry of the binomial coefficients is used elementwise (as in
+    # `comb`), otherwise the intermediate products overflow for `n` above 60, even if
+    # the result itself is small.
+    steps = np.minimum(k, n - k)
+
     for i in range(k):
-        prod *= n - i
-        prod = prod // (i + 1)
+        prod = np.where(i < steps, prod * (n - i) // (i + 1), prod)
+
+    if k > 0:
+        prod = np.where(invalid, 0, prod)
 
     return prod
 
